@@ -176,6 +176,8 @@ Spline<2, double> reparameterize_spline(
     if (ai != inf) {
       const double dt = std::abs(ai) < eps ? ds / vi : (-vi + std::sqrt(std::max<double>(eps, vi2 + 2 * ds * ai))) / ai;
 
+      if (!(dt > 0)) { SMOOTH_VERIF_EVENT("reparam.clamp"); }
+
       // add segment to spline
       ret.concat_global(Spline<2, double>{
         dt,
